@@ -1,24 +1,10 @@
-//! Correspondence harness of property C13 (probe version).
-use group::Group;
-use midnight_curves::pairing::{MillerLoopResult, MultiMillerLoop};
-use midnight_curves::{Bls12, Gt};
+//! Correspondence harness of property C13 (pairing: bilinearity, non-degeneracy, entry points).
 use mzkh::Ctx;
 
+mod tower;
+
 fn main() {
-    let ctx = Ctx::from_args("C13");
-    eprintln!("{:?}", Bls12::multi_miller_loop(&[]));
-    let r = mzkh::catch(|| Bls12::multi_miller_loop(&[]).final_exponentiation());
-    match r {
-        Ok(g) => eprintln!("empty bls: is_identity={} {:?}", bool::from(g.is_identity()), g == Gt::identity()),
-        Err(e) => eprintln!("empty bls: panic {e}"),
-    }
-    {
-        use midnight_curves::bn256::Bn256;
-        let r = mzkh::catch(|| Bn256::multi_miller_loop(&[]).final_exponentiation());
-        match r {
-            Ok(g) => eprintln!("empty bn: is_identity={}", bool::from(g.is_identity())),
-            Err(e) => eprintln!("empty bn: panic {e}"),
-        }
-    }
+    let mut ctx = Ctx::from_args("C13");
+    tower::run(&mut ctx);
     ctx.finish();
 }
